@@ -435,11 +435,13 @@ def make_text_sequence(eng, k):
 def families(tier, seed):
     q = tier == "quick"
     F = []
+    if q:
+        F.append(Family("events/K2-A1", make_events, "all sequences of 2 events over %d kinds, names %r, <=1 attribute" % (len(KINDS), NAMES), args=dict(k=2, nattr=1), nontrivial="roundtrip", max_forks=50000))
     for k in ([1, 2] if q else [2, 3]):
         if False:
             break
         F.append(Family("events/K%d" % k, make_events, "all sequences of %d events over %d kinds, names %r, <=%d attributes (class/id) with value None or 2 symbolic chars over 'x\" c', data 2 chars over 't \\n<'" % (
-            k, len(KINDS), NAMES, 2 if k <= 2 else 1), args=dict(k=k, nattr=(2 if k <= 2 else 1)), nontrivial=("roundtrip" if k >= 2 else None), max_forks=50000, required=(k <= 2)))
+            k, len(KINDS), NAMES, 2 if k <= 2 else 1), args=dict(k=k, nattr=(2 if k <= 2 else 1)), nontrivial=("roundtrip" if k >= 2 else None), max_forks=50000, required=(k <= (1 if q else 2))))
     for k in ([4] if q else [5, 6]):
         F.append(Family("tags/K%d" % k, make_events, "all sequences of %d start/end/startend/data events over names a,b,br (nesting logic), no attributes, concrete data" % k,
                         args=dict(k=k, nattr=0, kinds=["start", "end", "startend", "data"], names=["a", "b", "br"], concrete_data=True), nontrivial="roundtrip", max_forks=50000,
